@@ -318,6 +318,11 @@ func parseMember(member string) (Member, error) {
 	if found {
 		// Parse the member properties.
 		for _, pStr := range strings.Split(properties, propertyDelimiter) {
+			if pStr == "" {
+				// Ignore empty properties (e.g. a trailing ";"): they hold no
+				// data and are not serialized again.
+				continue
+			}
 			p, err := parseProperty(pStr)
 			if err != nil {
 				return newInvalidMember(), err
